@@ -22,7 +22,7 @@ func TestMain(m *testing.M) {
 		Property: "C07", Level: "exploration",
 		Rule: "same declared-tree/schedule generator as C06 without gap parents (forks, abandoned transactions and blocks, out-of-order block commits, double execution), run with mutable value types: a harness type with deep Clone/CopyFrom, real trie nodes (leaf, branch, extension, value node) and String. After every Set the harness scribbles on the object it handed in; after a Get it either scribbles on the returned object or keeps it to verify at the end that it still reads the same. " +
 			"Oracle (time-aware): a hit must equal own pending writes, then the block's pending writes, then the first write/tombstone along parent links passing ONLY through blocks committed so far (so any write visible before its transaction/block committed is a violation); where that walk finds a live value the lookup MUST hit (sizes are far below capacity); all content comparisons are against the model's pristine strings. " +
-			"Non-trivial = an abandoned or not-yet-committed transaction coexisted with a committed write, and both a scribble-after-set and a scribble-after-get happened on a mutable type before a later read; distinct = distinct (value type, tree, schedule log).",
+			"Blocks may write directly on their block cache before their transactions; 30% of the writes store a value the key had before; a fifth of the trees are quiet chains of 22..60 blocks (answers 20+ links back); trie-node values carry separator bytes and a version different from their origin. Non-trivial = an abandoned or not-yet-committed transaction coexisted with a committed write, and both a scribble-after-set and a scribble-after-get happened on a mutable type before a later read; distinct = distinct (value type, tree, schedule log).",
 		Assumptions: []string{"a BlockCache/TransactionCache is not used for lookups after its block was committed", "sizes stay far below the cache capacities, so capacity eviction cannot excuse a miss", "StateCache.Remove is not drawn"},
 	})
 	ev.Main(m)
